@@ -12,6 +12,7 @@ Case language (a JSON dict):
 """
 import base64
 import errno
+import os
 import fnmatch
 import glob as _glob
 import pickle
@@ -66,6 +67,13 @@ def _D(c):
 
 def _cls(c):
     return dirdbm.Shelf if c.get("cls") == "Shelf" else dirdbm.DirDBM
+
+
+def _open_db(c):
+    """the database object; with c["bmode"] the directory name is handed over as BYTES (DirDBM takes either; FilePath then
+    works in bytes mode — seeded change C51-3 compared bytes extensions with str ones, so recovery found nothing)"""
+    d = _D(c)
+    return _cls(c)(os.fsencode(d) if c.get("bmode") else d)
 
 
 def hx(b):
@@ -254,7 +262,7 @@ def _proc(c, fs, pr):
     fs.crash_at = tuple(pr["cut"]) if pr["cut"] is not None else None
     res = []
     try:
-        db = _cls(c)(_D(c))
+        db = _open_db(c)
         for op in pr["ops"]:
             res.append("crash")
             try:
@@ -292,7 +300,7 @@ def _execute1(c):
         for pr in c["procs"]:
             results.append(_proc(c, fs, pr))
         fs.revive()
-        db = _cls(c)(D)
+        db = _open_db(c)
         items = []
         for k in universe(c):
             kb = bytes.fromhex(k)
@@ -444,7 +452,7 @@ def tag(c, out):
                 big = True
     kc = "".join(sorted({("e" if not k else "L" if len(k) > 114 else "s") for k in universe(c)}))
     fam = "P" if sum(1 for k in universe(c) if k.startswith("4b" * 57)) > 1 else ""
-    dc = "" if c.get("dir", "db") == "db" else "G"
+    dc = ("" if c.get("dir", "db") == "db" else "G") + ("b" if c.get("bmode") else "")
     return (f"{'/'.join(parts[:4])}:{hit}:keys={kc}{fam}:strays={'y' if any(e[0] for e in c['pre']) else 'n'}:"
             f"{'err' if 'KeyError' in res else ''}{'F' if 'fail:' in res else ''}{'B' if big else ''}{dc}{(c.get('cls') or '')[:1]}")
 
@@ -569,6 +577,10 @@ def corpus():
         # a database directory whose name contains glob metacharacters (recovery must still find its leftovers)
         {"dir": "db[1]", "pre": [["", "6b", "6f6c64"]], "procs": [{"ops": [["set", "6b", "6e6577"], ["set", "61", "31"]], "cut": None}]},
         {"dir": "d*b", "pre": [["", "6b", "6f6c64"]], "procs": [{"ops": [["set", "6b", "6e6577"]], "cut": None}]},
+        # the database opened with a BYTES directory name (seeded change C51-3): leftovers must still be recovered
+        {"bmode": 1, "pre": [["", "6b", "6f6c64"], [".rpl", "61", "31"], [".new", "62", "32"]],
+         "procs": [{"ops": [["set", "6b", "6e6577"], ["del", "6b"]], "cut": None}]},
+        {"bmode": 1, "dir": "db[1]", "pre": [["", "6b", "6f6c64"]], "procs": [{"ops": [["set", "6b", "6e6577"], ["set", "61", "31"]], "cut": None}]},
         # keys whose file names are prefixes of each other
         {"pre": [["", "4b" * 57, "31"], ["", "4b" * 57 + "78", "32"], ["", "4b" * 114, "33"]],
          "procs": [{"ops": [["del", "4b" * 57], ["set", "4b" * 57, "34"], ["del", "4b" * 114]], "cut": None}]},
@@ -603,6 +615,8 @@ def generate(rng, tier):
         c = {"pre": pre}
         if rng.random() < 0.3:
             c["dir"] = rng.choice(DIRS)
+        if rng.random() < 0.25:
+            c["bmode"] = 1
         if rng.random() < 0.15:
             c["cls"] = "Shelf"
         if rng.random() < 0.3:      # an earlier generation: ops, crash, (recovery happens when the next process opens)
@@ -633,6 +647,8 @@ def generate(rng, tier):
         c = {"pre": pre, "procs": [{"ops": _ops(rng, rng.choice([0, 1, 2]), keys, rich=False), "cut": None}]}
         if rng.random() < 0.3:
             c["dir"] = rng.choice(DIRS)
+        if rng.random() < 0.25:
+            c["bmode"] = 1
         yield from expand(c, rng)
     # the key → file-name encoding on its own
     for i in range(200 if tier == "quick" else 5000):
@@ -670,3 +686,5 @@ def shrink(c):
         yield _with(c, dir="db")
     if c.get("cls"):
         yield _with(c, cls=None)
+    if c.get("bmode"):
+        yield _with(c, bmode=0)
